@@ -56,6 +56,7 @@ type rangeHint struct {
 	Loop  int    `json:"loop"`
 	Key   string `json:"key,omitempty"`
 	Value string `json:"value,omitempty"`
+	Map   bool   `json:"map,omitempty"` // the loop ranges over a map
 }
 
 var nameHints map[string]*funcHints
@@ -152,6 +153,11 @@ func hintsOf(fn *ssa.Function) *funcHints {
 		case *ast.RangeStmt:
 			loopN++
 			rh := rangeHint{Loop: loopN, Key: identName(s.Key), Value: identName(s.Value)}
+			if tv, ok := info.Types[s.X]; ok && tv.Type != nil {
+				if _, isMap := tv.Type.Underlying().(*types.Map); isMap {
+					rh.Map = true
+				}
+			}
 			if rh.Key == "_" {
 				rh.Key = ""
 			}
@@ -333,6 +339,15 @@ func vanishedName(fnName string, fn *ssa.Function, name string) string {
 		return ""
 	}
 	for _, r := range old.RangeVars {
+		if r.Map {
+			if r.Value == name {
+				return fmt.Sprintf("rangemap(%d)[rangekey(%d)]", r.Loop, r.Loop)
+			}
+			if r.Key == name {
+				return fmt.Sprintf("rangekey(%d)", r.Loop)
+			}
+			continue
+		}
 		if r.Value == name {
 			return fmt.Sprintf("ranged(%d)[rangeindex%d + 1]", r.Loop, r.Loop)
 		}
